@@ -51,6 +51,9 @@ type mutCase struct {
 	Sizes   [2][]int `json:"nal_sizes"`
 	Ops     []mutOp  `json:"ops"`
 	Mid     bool     `json:"marshal_between_ops"`
+	// Pre (correlated.go): when set, Pre[list][i] overrides the first payload bytes of NAL unit i of that list (as
+	// many as the payload has); nil entries leave the position pattern alone.
+	Pre [][][]int `json:"payload_prefix,omitempty"`
 }
 
 func (cs *mutCase) parsed() bool { return cs.Origin == "parsed" || cs.Origin == "parsed-marshalled" }
@@ -816,7 +819,15 @@ func (cs *mutCase) rawLists(maskF bool) [2][][]byte {
 			if maskF {
 				h &= 0x7F
 			}
-			out[li] = append(out[li], nal(byte(h), cs.Sizes[li][i], byte(li*0x80+i)))
+			b := nal(byte(h), cs.Sizes[li][i], byte(li*0x80+i))
+			if li < len(cs.Pre) && i < len(cs.Pre[li]) {
+				for k, v := range cs.Pre[li][i] {
+					if 1+k < len(b) {
+						b[1+k] = byte(v)
+					}
+				}
+			}
+			out[li] = append(out[li], b)
 		}
 	}
 	return out
@@ -917,6 +928,14 @@ func (cs *mutCase) key() uint64 {
 	}
 	if cs.Mid {
 		w(1)
+	}
+	for li := range cs.Pre {
+		h.Write([]byte("pre"))
+		w(li, len(cs.Pre[li]))
+		for _, p := range cs.Pre[li] {
+			w(len(p))
+			w(p...)
+		}
 	}
 	return h.Sum64()
 }
